@@ -601,6 +601,27 @@ def builders(ctx):
     oracle_layout(ctx, base_spec.get_base_spec().layout, None, "gemini.base_spec.get_base_spec() [after logical.get_spec()]")
     oracle_layout(ctx, single_col_zone.get_spec(2, 2, 2.0).layout, None, "single_col_zone.get_spec(2,2,2.0) [after the gemini builders]")
     ctx.evaluations += 4
+    # a returned spec EXTENDED IN PLACE by its holder (what gemini.logical.get_spec does to the base spec), then the builder called again with
+    # the same arguments: the second result is the layout those arguments denote - no table shared with the first result
+    from bloqade.geometry.dialects.grid import Grid
+    extra = Grid.from_positions([-7.0, -5.0], [1.0])
+    for b, args, label in ((single_col_zone.get_spec, (3, 2, 2.0), "single_col_zone.get_spec(3,2,2.0)"), (old_spec.single_zone_spec, (3, 2, 2.0), "stdlib.spec.single_zone_spec(3,2,2.0)"),
+                           (two_col_zone.get_spec, (3, 2, 2.0, 1.0), "two_col_zone.get_spec(3,2,2.0,1.0)"), (base_spec.get_base_spec, (), "gemini.base_spec.get_base_spec()"),
+                           (single_col_zone.get_spec, (1, 4, 10.0), "single_col_zone.get_spec(1,4,10.0)")):
+        first = b(*args)
+        before = snap(first)
+        first.layout.static_traps.update({"verif_extra": extra})
+        first.layout.fillable.add("verif_extra")
+        again = b(*args)
+        ctx.evaluations += 1
+        if snap(again)[2:] != before[2:] or "verif_extra" in again.layout.static_traps or "verif_extra" in again.layout.fillable or again.layout is first.layout:
+            ctx.fail({"kind": "zone-index", "layout": label.split("(")[0], "history": "earlier result extended in place, builder called again", "lookup": "shared tables"},
+                     {"layout": label, "history": "first = builder(args); first.layout.static_traps.update(...); builder(args)"},
+                     f"{label}: called again after its first result was extended in place, the builder returns a layout with zones {sorted(again.layout.static_traps)} "
+                     f"(get_zone_id of the foreign zone: {again.layout.get_zone_id(extra) if 'verif_extra' in again.layout.static_traps else 'n/a'}) instead of the layout its arguments denote")
+        else:
+            oracle_layout(ctx, again.layout, None, label + " [called again after an earlier result was extended in place]")
+            ctx.nt(("builder-again", label))
 
 
 def replay(data):
